@@ -1,4 +1,15 @@
-From TT Require Import Base.Verdict Trackaddict.Model Run.Ta_run.
+From TT Require Import Base.Outcome Base.Str Base.Verdict Trackaddict.Model Run.Ta_run.
 Definition case := Ta_run.case.
 Definition mkCase := Ta_run.mkCase.
-Definition check_case := Ta_run.check.
+(* C15 lets the decoder choose between "error" and "ignored as documented metadata": an error
+   where the model accepts (a stricter decoder) still meets the property - the correspondence
+   differs (S), nothing is dropped.  Accepting what the model rejects stays a violation: that is
+   how a bad row would be lost. *)
+Definition check_case (c : case) : verdict :=
+  match Ta_run.check c with
+  | VV => match c_class c, decode (s_of_bytes (c_text c)) with
+          | 1%nat, Ok _ => VS
+          | _, _ => VV
+          end
+  | v => v
+  end.
